@@ -91,7 +91,7 @@ __CPROVER_ensures(verif_exc == 0 ==> (g_match_count <= g_count && g_count <= ske
 """}
 REGION2 = {"name": "intersection_update_match_block", "file": IF, "members": MEMBERS,
            "begin": r"const uint32_t max_matches = std::min\(", "include_begin": True, "end": r"if \(match_count == 0\) \{",
-           "rules": S.SKACC + [(r"sketch\.get_num_retained\(\)", "sketch->n", 3),
+           "rules": S.SKACC + [(r"sketch\.get_num_retained\(\)", "sketch->n", "any"),
                                (r"std::vector<EN, A> matched_entries\(self->table_\.allocator_\);\s*matched_entries\.reserve\(max_matches\);",
                                 "EN* matched_entries = malloc(sizeof(EN) * (size_t)sketch->n); __CPROVER_assume(matched_entries != NULL); uint32_t matched_n = 0; g_max_matches = max_matches;", 1),
                                (r"for \(auto&& entry: sketch\) \{", LOOPC, 1),
@@ -152,7 +152,7 @@ __CPROVER_ensures((g_found) ==> verif_exc != 0)
 """}
 REGION3 = {"name": "intersection_update_first_block", "file": IF, "members": MEMBERS,
            "begin": r"is_valid_ = true;\s*const uint8_t lg_size = lg_size_from_count\(sketch\.get_num_retained\(\)", "include_begin": True, "end": r"\}\s*else\s*\{\s*const uint32_t max_matches",
-           "rules": S.SKACC + [(r"sketch\.get_num_retained\(\)", "sketch->n", 2),
+           "rules": S.SKACC + [(r"sketch\.get_num_retained\(\)", "sketch->n", "any"),
                                (r"theta_update_sketch_base<EN, EK, A>::REBUILD_THRESHOLD", "REBUILD_THRESHOLD_C", 1),
                                (r"self->table_ = hash_table\(lg_size, lg_size - 1, resize_factor::X1, 1, self->table_\.theta_, self->table_\.seed_, self->table_\.allocator_, self->table_\.is_empty_\);",
                                 "table_new(&self->table_, lg_size, lg_size - 1, self->table_.theta_, self->table_.seed_, self->table_.is_empty_);", 1),
@@ -229,7 +229,7 @@ __CPROVER_ensures(sketch->n != 0 ==> (g_continue && g_new_calls == 0 && self->is
 """}
 REGION5 = {"name": "intersection_update_no_retained_block", "file": IF, "members": MEMBERS,
            "begin": r"if \(sketch\.get_num_retained\(\) == 0\) \{", "include_begin": True, "end": r"if \(!is_valid_\) \{",
-           "rules": [(r"sketch\.get_num_retained\(\)", "sketch->n", 1),
+           "rules": [(r"sketch\.get_num_retained\(\)", "sketch->n", "any"),
                      (r"self->table_ = hash_table\(([^,]+), ([^,]+), resize_factor::X1, 1, self->table_\.theta_, self->table_\.seed_, self->table_\.allocator_, self->table_\.is_empty_\);",
                       r"table_new(&self->table_, \1, \2, self->table_.theta_, self->table_.seed_, self->table_.is_empty_);", 1)]}
 UNIT5 = {
